@@ -88,14 +88,14 @@ impl C01 {
         let mfs = spec.mf;
         let mf = move |a: u8, b: u8| mfs.s(a, b) as i64;
         let desc = |extra: &str| {
-            Obj::new()
-                .s("mode", mn)
-                .b("x", x)
-                .b("y", y)
-                .raw("scoring", &spec.json())
-                .u("history_position", hist_pos as u64)
-                .s("what", extra)
-                .done()
+            let o = Obj::new().s("mode", mn);
+            let o = if x.len() + y.len() <= 1500 {
+                o.b("x", x).b("y", y)
+            } else {
+                // long inputs: lengths and heads only (the case is replayable from its index)
+                o.u("xlen", x.len() as u64).u("ylen", y.len() as u64).b("x_head", &x[..x.len().min(200)]).b("y_tail", &y[y.len() - y.len().min(200)..])
+            };
+            o.raw("scoring", &spec.json()).u("history_position", hist_pos as u64).s("what", &extra[..extra.len().min(3000)]).done()
         };
         let r = guard(|| call_full(al, mode, x, y));
         ctx.eval(1);
@@ -177,8 +177,14 @@ impl C01 {
         if hist_pos > 0 {
             ctx.count("calls:on_reused_object", 1);
         }
+        if m > 60 || n > 60 {
+            ctx.count("calls:sequence_longer_than_60", 1);
+        }
+        if n > 65536 {
+            ctx.count("calls:y_longer_than_65536", 1);
+        }
         let cls = format!("{}:{}", mn, if m <= 7 && n <= 7 { "small" } else { "medium" });
-        if ok && ctx.wants_sample(&cls) {
+        if ok && m + n <= 120 && ctx.wants_sample(&cls) {
             ctx.sample(&cls, || {
                 Obj::new()
                     .s("mode", mn)
@@ -213,7 +219,7 @@ impl Monitor for C01 {
     fn rule(&self) -> &'static str {
         "case = one Aligner object with one scoring scheme and a history of 1-6 calls (custom/global/semiglobal/local) \
          on generated sequence pairs (directed pairs x directed scorings first, then seeded random: alphabets of 1-4 symbols or \
-         protein letters with BLOSUM62, lengths 0-7 and 8-30 (quick) / 8-60 (thorough), gap costs incl. 0, each clip in \
+         protein letters with BLOSUM62, lengths 0-7 and 8-30 (quick) / 8-60 (thorough), 1 in 150 pairs 61-300 / 61-1200 long, 1 in 12000 a short x against a y of 66000-70000 symbols, gap costs incl. 0, each clip in \
          {MIN_SCORE,0,-1000,-1..-9}); every call is checked against the O(mn) clip-model DP (cross-checked against the brute-force \
          clip model for lengths<=7), the position-based path validator, the recomputed score, and a fresh aligner. \
          shape = (mode, |x| class, |y| class, which clips finite, which clip ops occur, op kinds present, position in history); \
@@ -278,9 +284,29 @@ impl C01 {
     fn history<F: MatchFunc>(&self, ctx: &mut Ctx, rng: &mut Rng, mut al: Aligner<F>, spec: &Spec, alpha: &[u8]) {
         let calls = rng.range(1, 6);
         let maxmed = ctx.by_tier(12, 30, 60);
+        let maxbig = ctx.by_tier(0, 300, 1200);
         for h in 0..calls {
+            if !ctx.tiny() && rng.chance(1, 12000) {
+                // a short x against a y longer than 2^16 with a copy of x near the far end: coordinates, clip lengths and
+                // traceback offsets beyond 65535
+                let m = rng.range(5, 40);
+                let n = rng.range(66_000, 70_000);
+                let x = rng.bytes_over(alpha, m);
+                let mut y = rng.bytes_over(alpha, n);
+                let at = n - m - rng.range(0, 300);
+                let xv = related(rng, &x, alpha, rng.clone().range(0, 3));
+                let l = xv.len().min(n - at);
+                y[at..at + l].copy_from_slice(&xv[..l]);
+                let mode = rng.usize(4);
+                if !self.check_call(ctx, &mut al, spec, mode, &x, &y, h) {
+                    break;
+                }
+                continue;
+            }
             let small = rng.chance(3, 5);
-            let (m, n) = if small {
+            let (m, n) = if maxbig > 0 && rng.chance(1, 150) {
+                (rng.range(61, maxbig), rng.range(61, maxbig))
+            } else if small {
                 (rng.range(0, 7), rng.range(0, 7))
             } else {
                 (rng.range(8, maxmed), rng.range(8, maxmed))
